@@ -111,6 +111,14 @@ func CreateSubscription(c gocoro.Coroutine[*t_aio.Submission, *t_aio.Completion,
 					Timeout:   r.CreateSubscription.Timeout,
 					CreatedOn: createdOn,
 				}
+			} else {
+				// No row was inserted: either the subscription already exists or the promise was
+				// completed after it was read. Read the promise again so that the response never
+				// shows a stale pending promise for which no subscription is registered.
+				p, err = rereadPromise(c, r.Tags, r.CreateSubscription.PromiseId)
+				if err != nil {
+					return nil, err
+				}
 			}
 		}
 
